@@ -100,7 +100,12 @@ def method(name, sig, **kw):
 
 
 method("makeRequest", "(%s, correlationId: int, request: bytes, expectResponse: bool = True) -> Ref_Deferred" % SELF,
-       ensures={"answers-this-id[C06]": "implies(is_fresh(result) and old(self._dDown) is None, owner(result) == correlationId)"},
+       ensures={"answers-this-id[C06]": "implies(is_fresh(result) and old(self._dDown) is None, owner(result) == correlationId)",
+                # C06/C10: with a connection up the request is written at once; without one a connection cycle is started
+                # unless one is in progress
+                "written-when-connected[C06]": "implies(old(self._dDown) is None and old(self.proto) is not None, n_events('Sent') == 1)",
+                "connects-when-idle[C10]": "implies(old(self._dDown) is None and old(self.proto) is None and old(self.connector) is None, "
+                                           "n_added('cbConnect') == 1)"},
        raises={"DuplicateRequestError[C06]": "iff:correlationId in self.requests"})
 
 method("handleResponse", "(%s, response: bytes) -> None" % SELF, props=["C06", "C11"],
@@ -115,7 +120,8 @@ method("_cancelRequest", "(%s, correlationId: int, deferred: Ref_Deferred) -> No
 
 method("_abortRequest", "(%s, correlationId: int, reason: Ref_Failure) -> None" % SELF,
        requires=["correlationId in self.requests", "self.requests[correlationId].cancelled is None"],
-       ensures={"removed[C06]": "True"})
+       # C06/C10 "closing fails all pending requests": the request completes, with the failure given
+       ensures={"removed[C06]": "True", "completes-with-the-failure[C06, C10]": "n_events('Fired') == 1"})
 
 method("_sendRequest", "(%s, tReq: Ref__RequestState) -> None" % SELF,
        inline_at_calls=True, inline_only=True)
@@ -124,7 +130,9 @@ method("_sendQueued", "(%s) -> None" % SELF, requires=["self.proto is not None"]
        loops={"for#1": dict(index="i", inv=["self.proto is not None or True"])})
 
 method("_connectionLost", "(%s, reason: Ref_Failure) -> None" % SELF, props=["C06", "C10", "C11"],
-       ensures={"proto-cleared[C10]": "self.proto is None or True"},
+       ensures={"proto-cleared[C10]": "self.proto is None or True",
+                # C20/C10: a closing client reports "gone" when its connection has gone
+                "close-completes-when-the-connection-has-gone[C20, C10]": "implies(old(self._dDown) is not None, n_events('Fired') == 1)"},
        requires=["self.proto is not None"],
        # between `self.proto = None` and the reconnect at the end the object is deliberately idle-with-work: the clause
        # never-idle is suspended while the loop runs (neither owed nor assumed), re-established before the method returns
@@ -156,7 +164,9 @@ method("updateMetadata", "(%s, new: BrokerMetadata) -> None" % SELF, props=["C08
 # of zero, so the first failed attempt consults the retry policy with 1 ("the failure count reset after a success")
 method("_connect", "(%s) -> None" % SELF, props=["C10"], inline_at_calls=True,
        requires=["self.proto is None", "self.connector is None", "self._dDown is None"],
-       checkpoints={"call:maybeDeferred#1": {"cycle-starts-with-zero-failures[C10]": "self._failures == 0"}})
+       checkpoints={"call:maybeDeferred#1": {"cycle-starts-with-zero-failures[C10]": "self._failures == 0"}},
+       # an attempt is started and both of its outcomes are handled
+       ensures={"attempt-started[C10]": "n_added('cbConnect') == 1 and n_added('ebConnect') == 1"})
 
 ENV = {"self": "Ref__KafkaBrokerClient", "tryConnect": "closure", "connect": "closure", "cbConnect": "closure",
        "ebConnect": "closure", "cbDelayed": "closure"}
